@@ -133,7 +133,7 @@ def native_replay(jobres, harness_name, failure):
     ofile = os.path.join(work, "overlay.json")
     json.dump({"Replace": overlay}, open(ofile, "w"))
     env = dict(common.GOENV, VERIF_REPLAY=rfile)
-    p = subprocess.run(["go", "test", "-vet=off", "-count=1", "-run", "TestVerifReplay", "-overlay", ofile, jobres["pkg"]],
+    p = subprocess.run(["go", "test", "-v", "-vet=off", "-count=1", "-run", "TestVerifReplay", "-overlay", ofile, jobres["pkg"]],
                        cwd=REPO, capture_output=True, text=True, env=env, timeout=900)
     out = p.stdout + p.stderr
     m = re.search(r"VERIF-REPLAY outcome=(\"[^\"]*\") failures=(\[.*?\]) reached=", out)
@@ -265,9 +265,9 @@ def c06(prop, tier):
     jobs = []
     for f in fields:
         jobs.append(Job("r1c-" + f, "./constraint/" + f, ["prelude_sym.go", "prelude_fr_sym.go", "c06_r1c.go"], {"PKGNAME": "cs", "FRPKG": fr_pkg(f)}))
-    jobs.append(Job("sparse-U32", "./constraint", ["prelude_sym.go", "prelude_elem_sym.go", "c06_sparse.go"], {"PKGNAME": "constraint", "ELEMTYPE": "U32"}))
+    jobs.append(Job("sparse-U32", "./constraint", ["prelude_sym.go", "prelude_elem_sym.go", "c06_sparse.go"], {"PKGNAME": "constraint", "ELEMTYPE": "U32", "ELEMFR": fr_pkg("tinyfield")}))
     if tier != "quick":
-        jobs.append(Job("sparse-U64", "./constraint", ["prelude_sym.go", "prelude_elem_sym.go", "c06_sparse.go"], {"PKGNAME": "constraint", "ELEMTYPE": "U64"}))
+        jobs.append(Job("sparse-U64", "./constraint", ["prelude_sym.go", "prelude_elem_sym.go", "c06_sparse.go"], {"PKGNAME": "constraint", "ELEMTYPE": "U64", "ELEMFR": fr_pkg("bn254")}))
     return run_property(prop, tier, jobs,
                         title="C06: one-step inductive harnesses on the solver kernels from an arbitrary pre-state (symbolic values, solved flags, coefficients, wire ids).",
                         design_ref="DESIGN.md §3 C06",
